@@ -136,6 +136,9 @@ def gen_world(rng, nclients=None):
                 src["share_bounds"] = s["share_bounds"] = key + "b"
             for k, ls in enumerate(src.get("linear") or []):
                 ls["share"] = s["linear"][k]["share"] = key + "l%d" % k
+            for k, ns in enumerate(src.get("nonlinear") or []):
+                if rng.chance(0.6):
+                    ns["share"] = s["nonlinear"][k]["share"] = key + "n%d" % k
             if src.get("options") is not None:
                 src["share_options"] = s["share_options"] = key + "o"
             s["x0"] = [v + rng.pick([0.25, -0.5, 1.0]) for v in s["x0"]]
